@@ -282,8 +282,12 @@ struct Gen {
         int64_t t = t0;
         emit(t, sid, "CREATE"); t += 7;
         if (codec == C_RS2M && rng.chance(prof == "C09" ? 0.4 : 0.15)) { emit(t - 3, sid, "CTRLSET", rng.chance(0.6) ? m : (m == 4 ? 8 : 4)); cnt("field_size_presets"); }
+        static const char *unconf[] = {"unconf:esi0", "unconf:esi1", "unconf:esi_max"};
+        if (sw.api_faults && rng.chance(0.2)) { emit(t - 2, sid, "FAULT", -1, unconf[rng.below(3)]); cnt("api_faults_planned"); }
         emit(t, sid, "SETP"); t += 7;
-        if (!f.oti.empty() && !in_domain(codec, m, f.k, f.r, f.E, f.N1, f.pseed).inside) { emit(t + 50, sid, "RELEASE"); t_release_hint = t + 50; return t; }
+        if (!f.oti.empty() && !in_domain(codec, m, f.k, f.r, f.E, f.N1, f.pseed).inside) {
+            emit(t + 50, sid, "RELEASE"); t_release_hint = t + 50; return t;
+        }
         if (!materialisable(f)) { emit(t + 50, sid, "RELEASE"); t_release_hint = t + 50; return t; }
         if (rng.chance(0.3)) { emit(t, sid, "CTRL"); t += 3; }
         std::vector<uint32_t> order(f.r);
@@ -325,6 +329,8 @@ struct Gen {
         int64_t t = t_oti;
         put(t, "CREATE");
         if (codec == C_RS2M && rng.chance(prof == "C09" ? 0.4 : 0.15)) { put(t + 2, "CTRLSET", rng.chance(0.6) ? m : (m == 4 ? 8 : 4)); cnt("field_size_presets"); }
+        static const char *unconf[] = {"unconf:esi0", "unconf:esi1", "unconf:esi_max"};
+        if (sw.api_faults && rng.chance(0.2)) { put(t + 3, "FAULT", -1, unconf[rng.below(3)]); cnt("api_faults_planned"); }
         put(t + 5, "SETP");
         bool usable = in_domain(codec, m, f.k, f.r, f.E, f.N1, f.pseed).inside && materialisable(f);
         if (codec == C_2D) usable = materialisable(f);
